@@ -89,6 +89,43 @@ fn strategy_large() -> impl Strategy<Value = Case> {
         })
 }
 
+/// Wide symbols, many sub-blocks, large alignments: T up to 65535, N across 255/256/257 and up
+/// to T/Al, Al up to 255, on objects of a few symbols.
+fn strategy_wide() -> impl Strategy<Value = Case> {
+    (
+        prop_oneof![Just(1usize), Just(2), Just(4), Just(8), Just(16), Just(32), Just(64), Just(128), Just(255), Just(3), Just(7)],
+        any::<u64>(),
+        any::<u64>(),
+        1usize..=14,
+        1usize..=4,
+        any::<u64>(),
+        0u64..5,
+        any::<u64>(),
+    )
+        .prop_map(|(al, rt, rn, kt, z, rr, class, seed)| {
+            let tu_max = 65535 / al;
+            let tu = match rt % 8 {
+                0 => tu_max,
+                1 => (tu_max / 2).max(1),
+                2 => [255usize, 256, 257, 258][(rt >> 8) as usize % 4].min(tu_max),
+                3 => [511usize, 512, 513, 1024, 4096, 4097][(rt >> 8) as usize % 6].min(tu_max),
+                4 => 1 + ((rt >> 8) % 40) as usize,
+                _ => 1 + ((rt >> 8) % tu_max as u64) as usize,
+            }
+            .clamp(1, tu_max);
+            let n = match rn % 6 {
+                0 => 1,
+                1 => tu,
+                2 => [255usize, 256, 257, 300][(rn >> 8) as usize % 4].min(tu),
+                3 => 1 + ((rn >> 8) % tu.min(16) as u64) as usize,
+                _ => 1 + ((rn >> 8) % tu as u64) as usize,
+            };
+            let t = tu * al;
+            let r = if rr % 3 == 0 { t } else { 1 + ((rr >> 4) % t as u64) as usize };
+            Case { al, tu, n, kt, z: z.min(kt), r, class, seed }
+        })
+}
+
 fn check(c: &Case, st: &mut Stats) -> Result<(), String> {
     let (t, f) = (c.t(), c.f());
     let data = make_data(data_class_from(if c.class < 3 { 4 } else { 0 }), c.seed, f);
@@ -105,6 +142,9 @@ fn check(c: &Case, st: &mut Stats) -> Result<(), String> {
     st.class_if(c.z > 1, "Z>1");
     st.class_if(c.z > 128, "Z>128");
     st.class_if(c.kt > 65535, "Kt >= 2^16");
+    st.class_if(t > 4096, "T > 4096");
+    st.class_if(c.n > 255, "N > 255");
+    st.class_if(c.al > 8, "Al > 8");
     if c_sub || c_blk || c_pad {
         st.nt(fnv_u64s(&[f as u64, t as u64, c.z as u64, c.n as u64, c.al as u64]));
     }
@@ -276,13 +316,15 @@ fn signature(_: &Case, msg: &str) -> String {
 }
 
 pub fn run(ctx: &Ctx, rep: &mut Report) {
-    rep.rule = "generated (F, T, Z, N, Al, data): Al in {1,2,3,4,8}, T/Al in 1..=24, N in 1..=T/Al, Kt in 1..=90 (weighted; also 120..135 and 250..700), Z in 1..=min(Kt,12) and in one case of eight 1..=min(Kt,255), F=(Kt-1)*T+r, biased to Kt mod Z != 0 and (T/Al) mod N != 0; data position-coded or random. Plus a group of large objects (Kt in 30 000..140 000 weighted to 65 000..68 500, Z in 128..=255, T <= 8: running symbol indices beyond 2^16). Plus an exhaustive sweep of all (Kt <= 8 quick / 20 thorough, Z <= Kt, T/Al <= 5 quick / 8 thorough, N <= T/Al, Al in {1,4}). Oracle: reference layout by index formula (Partition, block/sub-block/symbol offsets) for every source packet's (SBN, ESI, payload); partition() and calculate_block_offsets() against the reference; then the decoder is fed all source packets, an erasure pattern + repair packets, one block decoder with all source packets, and one block decoder with a single batch (erasures + H+3 extra repair symbols, which enters the binary-only fast path), and must return the object / block. Non-trivial = N>1 with TL != TS, or Z>1 with KL != KS, or F mod T != 0; distinct by (F,T,Z,N,Al).".into();
+    rep.rule = "generated (F, T, Z, N, Al, data): Al in {1,2,3,4,8}, T/Al in 1..=24, N in 1..=T/Al, Kt in 1..=90 (weighted; also 120..135 and 250..700), Z in 1..=min(Kt,12) and in one case of eight 1..=min(Kt,255), F=(Kt-1)*T+r, biased to Kt mod Z != 0 and (T/Al) mod N != 0; data position-coded or random. Plus a group of large objects (Kt in 30 000..140 000 weighted to 65 000..68 500, Z in 128..=255, T <= 8: running symbol indices beyond 2^16). Plus a group of wide symbols (Al in {1,2,3,4,7,8,16,32,64,128,255}, T up to 65535, N across 255/256/257 and up to T/Al, objects of at most 14 symbols). Plus an exhaustive sweep of all (Kt <= 8 quick / 20 thorough, Z <= Kt, T/Al <= 5 quick / 8 thorough, N <= T/Al, Al in {1,4}). Oracle: reference layout by index formula (Partition, block/sub-block/symbol offsets) for every source packet's (SBN, ESI, payload); partition() and calculate_block_offsets() against the reference; then the decoder is fed all source packets, an erasure pattern + repair packets, one block decoder with all source packets, and one block decoder with a single batch (erasures + H+3 extra repair symbols, which enters the binary-only fast path), and must return the object / block. Non-trivial = N>1 with TL != TS, or Z>1 with KL != KS, or F mod T != 0; distinct by (F,T,Z,N,Al).".into();
     let n = ctx.tier.pick(200_000u64, 2_000_000);
     rep.absorb("generated", run_sharded("C05", "generated", ctx.seed, n, 32, strategy, check, to_json, signature));
     // large objects: more than 2^16 symbols in total, spread over many blocks of a few hundred
     // symbols (nothing in the small groups makes a running symbol index or byte offset large)
     let n = ctx.tier.pick(32u64, 600);
     rep.absorb("large", run_sharded("C05", "large", ctx.seed, n, 16, strategy_large, check, to_json, signature));
+    let n = ctx.tier.pick(1_500u64, 30_000);
+    rep.absorb("wide", run_sharded("C05", "wide", ctx.seed, n, 32, strategy_wide, check, to_json, signature));
     // exhaustive small sweep
     let (kt_max, tu_max) = match ctx.tier {
         Tier::Quick => (8usize, 5usize),
